@@ -131,6 +131,31 @@ def binary(x, success=None):
     return np.where(booleans, 1, 0)
 
 
+@register_stateful_transform
+class Binary:
+    """Stateful version of ``binary()``
+
+    The success level is determined (and checked) with the data used to build the design and
+    it is remembered when new data is evaluated.
+    """
+
+    __transform_name__ = "binary"
+
+    def __init__(self):
+        self.params_set = False
+        self.success = None
+
+    def __call__(self, x, success=None):
+        if not self.params_set:
+            if success is None:
+                success = sorted(x.unique().tolist())[0]
+            result = binary(x, success)
+            self.success = success
+            self.params_set = True
+            return result
+        return np.where(x == self.success, 1, 0)
+
+
 class Proportion:
     """Representation of a proportion term.
 
@@ -428,8 +453,8 @@ class Polynomial:
 
 TRANSFORMS.update(
     {
-        "B": binary,
-        "binary": binary,
+        "B": Binary,
+        "binary": Binary,
         "C": C,
         "I": I,
         "offset": offset,
